@@ -3,7 +3,9 @@
 package rueidis
 
 import (
+	"fmt"
 	"strings"
+	"time"
 
 	"verifsim/sched"
 )
@@ -102,4 +104,86 @@ func stepsOf[T any](xs []T, f func(T) int) []int {
 		out = append(out, f(x))
 	}
 	return out
+}
+
+// judgeLifetimeRecovery is the C03 oracle for plans with ConnLifetime (any front-end). A connection that reaches its
+// lifetime is closed by the client; calls still outstanding on it fail internally with errConnExpired and the front-end
+// sends them again. That re-send executes an unanswered write a second time - the known finding of C03 (DESIGN.md
+// 15.4) - and is reported under its rule (executed-twice-after-lifetime-expiry). What the known finding does not cover:
+// a write whose reply the client had already read from the connection is executed again. That is only judged with
+// AlwaysPipelining: on the synchronous path a batch that fails midway loses all its replies (pipe.syncDoMulti
+// overwrites every result with the error), so there the client cannot tell answered commands from outstanding ones.
+func judgeLifetimeRecovery(e *env, frontEnd string) {
+	out := e.out
+	lt := time.Duration(e.plan.Opt.ConnLifetimeMs) * time.Millisecond
+	type execAt struct {
+		conn, step int
+		answered   bool // the whole reply frame had been read by the client from the connection
+		expired    bool // the connection ended at or after its lifetime
+	}
+	frameEnd := map[[2]int]int{}
+	for _, l := range e.sim.Links {
+		off := 0
+		for _, f := range l.S.OutLog {
+			off += f.Bytes
+			if !f.Push {
+				frameEnd[[2]int{l.ID, f.ConnSeq}] = off
+			}
+		}
+	}
+	execs := map[string][]execAt{}
+	for _, ex := range e.sim.W.Log {
+		if ex.Conn < 0 || ex.Queued || len(ex.Argv) < 3 || ex.Argv[0] != "VWTAG" || ex.Reply.IsErr() {
+			continue
+		}
+		l := e.sim.LinkOf(ex.Conn)
+		if l == nil {
+			continue
+		}
+		x := execAt{conn: ex.Conn, step: ex.Step}
+		nread, _, _, _, _ := l.C.Stats()
+		if end, ok := frameEnd[[2]int{ex.Conn, ex.ConnSeq}]; ok && end <= nread {
+			x.answered = true
+		}
+		x.expired = lt > 0 && !l.EndedAt.IsZero() && l.EndedAt.Sub(l.AcceptedAt) >= lt
+		execs[ex.Argv[2]] = append(execs[ex.Argv[2]], x)
+	}
+	e.eachCall(func(task int, spec CallSpec, rec *sched.CallRec, res *CallResult) {
+		if spec.Kind != "do" && spec.Kind != "multi" {
+			return
+		}
+		for ci, c := range spec.Cmds {
+			if c.Argv[0] != "VWTAG" || len(c.Argv) < 3 || c.Flag == "retry" {
+				continue
+			}
+			xs := execs[c.Argv[2]]
+			if len(xs) < 2 {
+				if len(xs) == 1 {
+					out.judged("C03:write-at-most-once")
+				}
+				continue
+			}
+			rule, how := "executed-twice", "after a transport failure or client-side retry"
+			for i, x := range xs {
+				if x.expired {
+					rule, how = "executed-twice-after-lifetime-expiry", fmt.Sprintf("after connection %d ended at or after ConnLifetime (%v) with the reply outstanding", x.conn, lt)
+				}
+				if x.answered && i < len(xs)-1 && e.plan.Opt.AlwaysPipelining {
+					rule, how = "answered-write-executed-again", fmt.Sprintf("although the client had read the reply of execution %d from connection %d", i+1, x.conn)
+					break
+				}
+			}
+			out.violate("C03", rule, "%s client: task %d call %d cmd %d %q (%s of %d commands), neither read-only nor retryable, was executed %d times (%+v) %s", frontEnd, task, rec.Index, ci, truncArgv(c.Argv), spec.Kind, len(spec.Cmds), len(xs), xs, how)
+		}
+	})
+	out.probe("conn-lifetime-configured")
+	expired := 0
+	for _, l := range e.sim.Links {
+		if lt > 0 && !l.EndedAt.IsZero() && l.EndedAt.Sub(l.AcceptedAt) >= lt {
+			expired++
+		}
+	}
+	if expired > 0 {
+		out.probe("connection-reached-its-lifetime")
+	}
 }
